@@ -88,7 +88,13 @@ pub fn eval_doc(doc: &Doc) -> (Vec<Failure>, u64) {
                     (None, Target::Builtin) => "builtin",
                     (None, _) => "no-target",
                 };
-                let key = format!("{}:{}:{}", m.trim_start_matches("textDocument/"), role_name(&o.role), place);
+                let key = format!(
+                    "{}:{}:{}{}",
+                    m.trim_start_matches("textDocument/"),
+                    role_name(&o.role),
+                    place,
+                    if doc.type_use_named_like_local(o) { ":named-like-a-local" } else { "" }
+                );
                 reqs.push((s.pos_request(m, URI, l, c), m, o.tok, exp, (l, c), key));
             }
         }
